@@ -102,10 +102,7 @@ def specLess (d : Data) (m : Mode) (rev : Bool) : NV → NV → Bool :=
   let l := modeSpecLess d.o sortSets d.items m
   if rev then revLess l else l
 
-def uniform (d : Data) : Mode → Bool
-  | .contextual => ctxUniform d.o sortSets d.keys
-  | .date => dateUniform d.o sortSets d.keys
-  | _ => true
+def uniform (d : Data) (m : Mode) : Bool := modeUniform d.o sortSets m d.keys
 
 def names (l : List NV) : String := hexList (l.map (·.name))
 
